@@ -2,10 +2,12 @@ import Verif.Proofs.C09Svg
 /-!
 # C09 (SVG) — property-level theorems about the writers of `svg.go`
 
-`svg_bracket_count`, `svg_text_wellformed`, `svg_cdata_wellformed`, `svg_attr_wellformed`, with the contracts on the
-CSS sub-minifier stated explicitly (`SubTextOk`, `LegalOut`, `NoCdEndOut`, "the rewritten value is a sequence of
-units") and counterexamples showing that a sub-minifier which only removes white space violates them
-(K-C09-Xml-2, K-C09-Xml-3 on the real code).
+`svg_bracket_count`, `svg_text_wellformed`, `svg_cdata_wellformed`, `svg_attr_wellformed` for EVERY sub-minifier
+function: since /repo d582c28 the host checks the sub-minifier's result (`isCharData`, no `]]>` in a kept section)
+and escapes `]]>` after it, so the former contracts `SubTextOk`, `NoCdEndOut`, "the rewritten `style` value is a
+sequence of units" are gone (K-C09-Xml-2, K-C09-Xml-3 fixed).  What the host does not check is the legality of the
+characters a sub-minifier writes (control characters, references to illegal code points): for sub-minifier output the
+theorems give `CharData` (no `<`, no `&` that does not start a reference) instead of the full grammar `WfText`.
 -/
 namespace Verif.Proofs.C09Xml
 open Verif.Xml (XTok)
@@ -40,71 +42,98 @@ theorem append_safe (out t : List Char) (n : Nat) (hn : brAfter 0 out = n) (ho :
 theorem textSafe_escCD (n : Nat) (x : List Char) (hx : x = [] ∨ WfText x) : TextSafe n (escCD n x) :=
   ⟨(escCD_text n x hx).2.1, (escCD_free x n).1⟩
 
-/-- **svg_text_wellformed** (full for text outside `style` and whenever no CSS minifier is registered): for EVERY
-`bw.n` and EVERY text token whose data is character data according to the grammar, the bytes written by the
-`TextToken` branch (`ReplaceMultipleWhitespaceAndEntities` with the XML tables, `TrimWhitespace`, `escapeCDEnd`)
-are empty or well-formed character data, complete no `]]>` behind the `n` brackets already written, and appended
-to any `]]>`-free output ending in `n` brackets leave it `]]>`-free.  Inside `style` exactly these bytes are what
-the sub-minifier is given. -/
-theorem svg_text_wellformed (n : Nat) (d : List Char) (hd : WfText d) :
-    TextSafe n (svgTextData n d) ∧
-    (∀ f, svgText false f n d = svgTextData n d) ∧ (∀ st, svgText st (fun _ => none) n d = svgTextData n d) ∧
-    ∀ out, brAfter 0 out = n → hasCdEnd out = false → hasCdEnd (out ++ svgTextData n d) = false := by
+/-- character data in the sense the host can enforce: no `<`, and the specification decoder finds no `&` that does
+not start a reference -/
+def CharData (t : List Char) : Prop := '<' ∉ t ∧ DCh.bad ∉ decodeText t
+
+theorem legalD_ne_bad (l : List DCh) (h : l.all legalD = true) : DCh.bad ∉ l := by
+  intro hb
+  have := (List.all_eq_true.mp h) _ hb
+  simp [legalD] at this
+
+theorem wfText_charData (t : List Char) (h : t = [] ∨ WfText t) : CharData t := by
+  rcases h with rfl | ⟨us, hok, rfl, _⟩
+  · simp [CharData, decodeText, decodeGo]
+  · refine ⟨flat_no_lt us hok, ?_⟩
+    rw [decodeText_flat us hok]
+    exact legalD_ne_bad _ (legal_units us hok false)
+
+theorem charData_escCD (n : Nat) (x : List Char) (h : isCharData x = true) : CharData (escCD n x) :=
+  isCD_spec false _ _ (Nat.le_refl _) (isCD_escCD _ x (Nat.le_refl _) h n)
+
+/-- the data the `TextToken` branch hands on is character data according to the grammar -/
+theorem svgTextPre_wf (d : List Char) (hd : WfText d) : svgTextPre d = [] ∨ WfText (svgTextPre d) := by
   obtain ⟨us, hok, rfl, _⟩ := hd
   obtain ⟨us1, e1, ok1, _, _⟩ := scan_text us hok
   obtain ⟨us2, e2, ok2⟩ := trimWs_flat us1 ok1
-  have hs : TextSafe n (svgTextData n (flat us)) := by
-    unfold svgTextData
-    rw [e1, e2]
-    exact textSafe_escCD n _ (units_text us2 ok2)
-  refine ⟨hs, fun f => by simp [svgText], fun st => ?_, fun out hn ho => append_safe out _ n hn ho hs.2⟩
+  unfold svgTextPre
+  rw [e1, e2]
+  exact units_text us2 ok2
+
+/-- **svg_text_wellformed** (full, EVERY sub-minifier function `f`, inside and outside `style`): for every `bw.n` and
+every text token whose data is character data according to the grammar, the bytes written by the `TextToken` branch of
+`svg.go` (`ReplaceMultipleWhitespaceAndEntities`, `TrimWhitespace`, inside `style` the sub-minifier on a copy whose
+result is used only if `isCharData` accepts it, then `escapeCDEnd(·, bw.n)`) contain no `<`, no `&` that does not start
+a reference, complete no `]]>` behind the `n` brackets already written, and appended to any `]]>`-free output ending in
+`n` brackets leave it `]]>`-free.  Whenever the bytes do not come from the sub-minifier (outside `style`, no CSS
+minifier, result rejected) they are moreover empty or well-formed character data with legal characters (`TextSafe`). -/
+theorem svg_text_wellformed (style : Bool) (f : List Char → Option (List Char)) (n : Nat) (d : List Char)
+    (hd : WfText d) :
+    CharData (svgText style f n d) ∧ cdAuto n (svgText style f n d) = false ∧
+    (∀ out, brAfter 0 out = n → hasCdEnd out = false → hasCdEnd (out ++ svgText style f n d) = false) ∧
+    ((style = false ∨ subChecked f (svgTextPre d) = svgTextPre d) → TextSafe n (svgText style f n d)) ∧
+    svgText false f n d = svgTextData n d := by
+  have hpre := svgTextPre_wf d hd
+  have hfree : cdAuto n (svgText style f n d) = false := by
+    simp only [svgText]; exact (escCD_free _ n).1
+  have hcd : CharData (svgText style f n d) := by
+    simp only [svgText]
+    split
+    · unfold subChecked
+      cases hm : f (svgTextPre d) with
+      | none => exact wfText_charData _ (textSafe_escCD n _ hpre).1
+      | some m =>
+        simp only
+        split
+        · next hok => exact charData_escCD n m hok
+        · exact wfText_charData _ (textSafe_escCD n _ hpre).1
+    · exact wfText_charData _ (textSafe_escCD n _ hpre).1
+  refine ⟨hcd, hfree, fun out hn ho => append_safe out _ n hn ho hfree, ?_, by simp [svgText, svgTextData]⟩
+  intro h
   simp only [svgText]
-  split <;> rfl
+  rcases h with rfl | h
+  · simpa using textSafe_escCD n _ hpre
+  · split
+    · rw [h]; exact textSafe_escCD n _ hpre
+    · exact textSafe_escCD n _ hpre
 
 example : svgTextData 2 " a  &lt;\n&gt; ]]&gt; ".toList = "a &lt;\n> ]]&gt;".toList ∧
     svgTextData 2 ">x".toList = "&gt;x".toList := by decide
 
-/-- contract for a sub-minifier whose output is written as character data: safe input gives safe output -/
-def SubTextOk (f : List Char → Option (List Char)) : Prop :=
-  ∀ n x m, f x = some m → TextSafe n x → TextSafe n m
-
-/-- **svg_text_wellformed_sub** (by contract): inside `style` the written bytes are the sub-minifier's output for
-the safe data of `svg_text_wellformed`; they are safe for EVERY sub-minifier that satisfies `SubTextOk`. -/
-theorem svg_text_wellformed_sub (style : Bool) (f : List Char → Option (List Char)) (hf : SubTextOk f) (n : Nat)
-    (d : List Char) (hd : WfText d) : TextSafe n (svgText style f n d) := by
-  have hs := (svg_text_wellformed n d hd).1
-  simp only [svgText]
-  split
-  · cases hm : f (svgTextData n d) with
-    | none => exact hs
-    | some m => exact hf n _ m hm hs
-  · exact hs
-
-/-- full statement without a contract: whatever the sub-minifier does, the text written inside `style` is safe -/
-def svg_style_text_full : Prop :=
-  ∀ (f : List Char → Option (List Char)) (n : Nat) (d : List Char), WfText d → TextSafe n (svgText true f n d)
-
 /-- a sub-minifier that only removes spaces (what the CSS minifier does around `]` and `>`) -/
 def dropSpaces (x : List Char) : Option (List Char) := some (x.filter (· != ' '))
 
-/-- **svg_style_text_counterexample**: the contract is needed and the real CSS minifier violates it — a sub-minifier
-that only removes spaces turns the well-formed `a[b]] > c` into `a[b]]>c` (on the real code:
-`<svg><style>a[b]] > c{d:e}</style></svg>` → `<svg><style>a[b]]>c{d:e}</style></svg>`, K-C09-Xml-2; the `;` of
-`&amp;` removed as a redundant semicolon, K-C09-Xml-3). -/
-theorem svg_style_text_counterexample : ¬ svg_style_text_full := by
-  intro h
-  have hd : WfText "a[b]] > c".toList :=
-    ⟨[.lit 'a', .lit '[', .lit 'b', .lit ']', .lit ']', .lit ' ', .lit '>', .lit ' ', .lit 'c'], by decide, by decide,
-      by decide⟩
-  have := (h dropSpaces 0 _ hd).2
-  revert this
-  decide
+/-- a sub-minifier that drops a `;` in front of `}` and at the end (the CSS minifier's redundant semicolon) -/
+def dropSemi : List Char → Option (List Char)
+  | x => some (go x)
+where
+  go : List Char → List Char
+    | [] => []
+    | [';'] => []
+    | ';' :: '}' :: r => '}' :: go r
+    | c :: r => c :: go r
 
-/-- contract: the sub-minifier writes legal characters only -/
+/-- regression of K-C09-Xml-2 / K-C09-Xml-3 (fixed in d582c28): what is written now.  A sub-minifier that removes the
+spaces of `a[b]] > c` no longer creates `]]>` (the `>` is escaped after it ran); one that cuts the `;` of `&amp;` is
+overruled (its result is not character data, the data it was given is written). -/
+example : svgText true dropSpaces 0 "a[b]] > c".toList = "a[b]]&gt;c".toList ∧
+    svgText true dropSemi 0 "a{b:c&amp;}".toList = "a{b:c&amp;}".toList ∧
+    isCharData "a{b:c&amp}".toList = false ∧ isCharData "a{b:c&amp;}&#x3c;&#60;".toList = true := by decide
+
+/-- contract that remains: the sub-minifier writes legal characters when it is given legal characters (the host does
+not check this) -/
 def LegalOut (f : List Char → Option (List Char)) : Prop :=
   ∀ x m, f x = some m → x.all legalByte = true → m.all legalByte = true
-/-- contract: the output of the sub-minifier does not contain `]]>` -/
-def NoCdEndOut (f : List Char → Option (List Char)) : Prop := ∀ x m, f x = some m → hasCdEnd m = false
 
 theorem cdataText_safe (n : Nat) (t e : List Char) (ht : t.all legalByte = true)
     (he : escapeCDATAVal t = some e) : TextSafe n (svgCDataText n e) := by
@@ -125,34 +154,35 @@ theorem cdataText_safe (n : Nat) (t e : List Char) (ht : t.all legalByte = true)
   rw [e1, e2]
   exact textSafe_escCD n _ (units_text us2 ok2)
 
-/-- **svg_cdata_wellformed**: for EVERY `bw.n`, EVERY CDATA token of the lexer contract (`cdataOk`: own delimiters,
-text without `]]>`, legal characters), inside or outside `style`, and EVERY sub-minifier `f` that writes legal
-characters (`LegalOut`):
-* when `EscapeCDATAVal` chooses text (at most 12 bytes of escapes), the written bytes (`&lt;`/`&amp;` escapes,
-  white space collapsed and trimmed, `escapeCDEnd`) are empty or well-formed character data and complete no `]]>` —
-  no further contract on `f`: a `]]>` in its output is escaped on this path;
-* when the section is kept, the written bytes are a well-formed CDATA section (`cdataOk`) around the text — outside
-  `style` unconditionally, inside `style` for every `f` whose output contains no `]]>` (`NoCdEndOut`). -/
+/-- **svg_cdata_wellformed** (full; no contract about `]]>` any more): for EVERY `bw.n`, EVERY CDATA token of the lexer
+contract (`cdataOk`: own delimiters, text without `]]>`, legal characters), inside or outside `style`, and EVERY
+sub-minifier `f` that writes legal characters (`LegalOut`, the one thing the host does not check):
+* when `EscapeCDATAVal` chooses text, the written bytes (`&lt;`/`&amp;` escapes, white space collapsed and trimmed,
+  `escapeCDEnd`) are empty or well-formed character data and complete no `]]>`;
+* when the section is kept, the written bytes are a well-formed CDATA section (`cdataOk`) around the text that was
+  chosen — a sub-minifier result containing `]]>` is not used (d582c28), so the section ends at its own `]]>`. -/
 theorem svg_cdata_wellformed (style : Bool) (f : List Char → Option (List Char)) (hf : LegalOut f) (n : Nat)
     (data txt : List Char) (hc : cdataOk data txt = true) :
     ((escapeCDATAVal (svgCDataSub style f data txt).2).isSome = true → TextSafe n (svgCData style f n data txt)) ∧
-    (escapeCDATAVal (svgCDataSub style f data txt).2 = none → (style = false ∨ NoCdEndOut f) →
+    (escapeCDATAVal (svgCDataSub style f data txt).2 = none →
       cdataOk (svgCData style f n data txt) (svgCDataSub style f data txt).2 = true) := by
   obtain ⟨hd, hne, hleg⟩ := cdataOk_shape data txt hc
   have hsub : (svgCDataSub style f data txt).2.all legalByte = true ∧
-      ((style = false ∨ NoCdEndOut f) → cdataOk (svgCDataSub style f data txt).1 (svgCDataSub style f data txt).2 = true) := by
+      cdataOk (svgCDataSub style f data txt).1 (svgCDataSub style f data txt).2 = true := by
     unfold svgCDataSub
     cases style with
-    | false => exact ⟨hleg, fun _ => hc⟩
+    | false => exact ⟨hleg, hc⟩
     | true =>
       simp only [if_true]
       cases hm : f txt with
-      | none => exact ⟨hleg, fun _ => hc⟩
+      | none => exact ⟨hleg, hc⟩
       | some m =>
-        refine ⟨hf txt m hm hleg, fun h => ?_⟩
-        rcases h with h | h
-        · cases h
-        · simp [cdataOk, cdOpen, cdClose, cdataOpen, cdataClose, h txt m hm, hf txt m hm hleg]
+        simp only
+        split
+        · exact ⟨hleg, hc⟩
+        · next hno =>
+          have hno' : hasCdEnd m = false := by rw [← hasCdEndB_eq]; simpa using hno
+          exact ⟨hf txt m hm hleg, by simp [cdataOk, cdOpen, cdClose, cdataOpen, cdataClose, hno', hf txt m hm hleg]⟩
   constructor
   · intro hsome
     cases he : escapeCDATAVal (svgCDataSub style f data txt).2 with
@@ -161,21 +191,10 @@ theorem svg_cdata_wellformed (style : Bool) (f : List Char → Option (List Char
       unfold svgCData
       simp only [he]
       exact cdataText_safe n _ e hsub.1 he
-  · intro hnone hcon
+  · intro hnone
     unfold svgCData
     simp only [hnone]
-    exact hsub.2 hcon
-
-example : cdataOk "<![CDATA[ a <b> ]]>".toList " a <b> ".toList = true ∧
-    svgCData false dropSpaces 2 "<![CDATA[ a <b> ]]>".toList " a <b> ".toList = "a &lt;b>".toList ∧
-    svgCData true dropSpaces 0 "<![CDATA[a{b:\"<<<<<\"} ]]>".toList "a{b:\"<<<<<\"} ".toList =
-      "<![CDATA[a{b:\"<<<<<\"}]]>".toList := by decide
-
-/-- full statement without `NoCdEndOut`: a kept section is a well-formed CDATA section whatever the sub-minifier does -/
-def svg_cdata_kept_full : Prop :=
-  ∀ (f : List Char → Option (List Char)), LegalOut f → ∀ (n : Nat) (data txt : List Char), cdataOk data txt = true →
-    escapeCDATAVal (svgCDataSub true f data txt).2 = none →
-    cdataOk (svgCData true f n data txt) (svgCDataSub true f data txt).2 = true
+    exact hsub.2
 
 theorem dropSpaces_legal : LegalOut dropSpaces := by
   intro x m h hx
@@ -185,51 +204,98 @@ theorem dropSpaces_legal : LegalOut dropSpaces := by
   intro c hc
   exact hx c hc.1
 
-/-- **svg_cdata_kept_counterexample**: `NoCdEndOut` is needed and the real CSS minifier violates it — inside `style`
-a sub-minifier that only removes spaces turns `a[b]] > c{d:"<<<<<"}` (15 bytes of escapes: the section is kept) into a
-"section" whose text contains `]]>`: the section ends early and the rest, with its `<`, is character data; the
-independent tokeniser rejects `<style>…</style>` around it.  On the real code:
-`<svg><style><![CDATA[a[b]] > c{d:"<<<<<"}]]></style></svg>` → `…<![CDATA[a[b]]>c{d:"<<<<<"}]]>…` (K-C09-Xml-2). -/
-theorem svg_cdata_kept_counterexample : ¬ svg_cdata_kept_full := by
-  intro h
-  have := h dropSpaces dropSpaces_legal 0 "<![CDATA[a[b]] > c{d:\"<<<<<\"}]]>".toList "a[b]] > c{d:\"<<<<<\"}".toList
-    (by decide) (by decide)
-  revert this
-  decide
+/-- regression of K-C09-Xml-2, kept section (fixed in d582c28): the space-removing sub-minifier's `a[b]]>c{d:"<<<<<"}`
+contains `]]>` and is not used — the section is written as it was and the independent tokeniser reads
+`<style>…</style>` around it; a harmless result is still used. -/
+example : cdataOk "<![CDATA[ a <b> ]]>".toList " a <b> ".toList = true ∧
+    svgCData false dropSpaces 2 "<![CDATA[ a <b> ]]>".toList " a <b> ".toList = "a &lt;b>".toList ∧
+    svgCData true dropSpaces 0 "<![CDATA[a{b:\"<<<<<\"} ]]>".toList "a{b:\"<<<<<\"} ".toList =
+      "<![CDATA[a{b:\"<<<<<\"}]]>".toList ∧
+    svgCData true dropSpaces 0 "<![CDATA[a[b]] > c{d:\"<<<<<\"}]]>".toList "a[b]] > c{d:\"<<<<<\"}".toList =
+      "<![CDATA[a[b]] > c{d:\"<<<<<\"}]]>".toList ∧
+    (xmlTokens ("<style>".toList ++ svgCData true dropSpaces 0 "<![CDATA[a[b]] > c{d:\"<<<<<\"}]]>".toList
+      "a[b]] > c{d:\"<<<<<\"}".toList ++ "</style>".toList)).isSome = true := by decide
 
-example : xmlTokens ("<style>".toList ++ svgCData true dropSpaces 0 "<![CDATA[a[b]] > c{d:\"<<<<<\"}]]>".toList
-    "a[b]] > c{d:\"<<<<<\"}".toList ++ "</style>".toList) = none := by decide
+/-- an attribute value literal as far as the host can enforce it: quoted, the quote does not occur inside, no `<`, no
+`&` that does not start a reference -/
+def AttrLit (w : List Char) : Prop :=
+  ∃ q b, w = q :: (b ++ [q]) ∧ (q = '"' ∨ q = '\'') ∧ q ∉ b ∧ '<' ∉ b ∧ DCh.bad ∉ normAttr b
 
-/-- **svg_attr_wellformed**: (1) for EVERY well-formed quoted attribute value literal, the value as preprocessed by
-`TokenBuffer.read` (`ReplaceMultipleWhitespaceAndEntities` with `EntitiesMap`/`AttrRevEntitiesMap`, `TrimWhitespace`)
-is a sequence of grammar units (literal bytes other than `<`/`&`, references); (2) for EVERY value `v` that is a
-sequence of units — the preprocessed value of (1) for attributes that are written as they are, and by contract the
-result of the value rewrites (`style` through the CSS sub-minifier, `d`, `viewBox`, colours, lengths) — the bytes
-written by `xml.EscapeAttrVal` are a well-formed attribute value literal (quoted, no `<`, no bare `&`, the chosen
-quote does not occur inside) whose XML 1.0 §3.3.3 normalised value is the value of `v`. -/
+theorem wfAttrVal_attrLit (w : List Char) (h : WfAttrVal w) : AttrLit w := by
+  obtain ⟨q, us, hq, hok, hl, rfl⟩ := h
+  refine ⟨q, flat us, rfl, hq, flat_no_quote us hok q hq hl, flat_no_lt us hok, ?_⟩
+  rw [normAttr_flat us hok]
+  exact legalD_ne_bad _ (legal_units us hok true)
+
+theorem attrLit_of_isCD (m : List Char) (h : isCharData m = true) : AttrLit (svgAttrWrite m) := by
+  have e39 : ∀ Y, isCharDataGo 0 (['&', '#', '3', '9', ';'] ++ Y) = isCharDataGo 0 Y := by
+    intro Y; simp [isCharDataGo, refLen, isDigit]
+  have e34 : ∀ Y, isCharDataGo 0 (['&', '#', '3', '4', ';'] ++ Y) = isCharDataGo 0 Y := by
+    intro Y; simp [isCharDataGo, refLen, isDigit]
+  unfold svgAttrWrite escapeAttrVal
+  simp only
+  split
+  · have hc := isCD_escQuote '\'' ['&', '#', '3', '9', ';'] (Or.inr rfl) e39 _ m (Nat.le_refl _) h
+    obtain ⟨s1, s2⟩ := isCD_spec true _ _ (Nat.le_refl _) hc
+    exact ⟨'\'', _, rfl, Or.inr rfl, escQuote_noq _ _ (by decide) m, s1, s2⟩
+  · have hc := isCD_escQuote '"' ['&', '#', '3', '4', ';'] (Or.inl rfl) e34 _ m (Nat.le_refl _) h
+    obtain ⟨s1, s2⟩ := isCD_spec true _ _ (Nat.le_refl _) hc
+    exact ⟨'"', _, rfl, Or.inl rfl, escQuote_noq _ _ (by decide) m, s1, s2⟩
+
+/-- **svg_attr_wellformed** (full): (1) for EVERY well-formed quoted attribute value literal, the value as preprocessed
+by `TokenBuffer.read` (`ReplaceMultipleWhitespaceAndEntities` with `EntitiesMap`/`AttrRevEntitiesMap`,
+`TrimWhitespace`) is a sequence of grammar units; (2) for EVERY value that is a sequence of units the bytes written by
+`xml.EscapeAttrVal` are a well-formed attribute value literal whose XML 1.0 §3.3.3 normalised value is that of the
+units; (3) the `style` attribute, EVERY inline sub-minifier function `f`: the written bytes are a quoted literal in
+which the chosen quote does not occur, without `<` and without a `&` that does not start a reference (`AttrLit`; since
+d582c28 a result that `isCharData` rejects is not used), and the full `WfAttrVal` whenever the bytes do not come from
+the sub-minifier.  The other value rewrites (`d`, `viewBox`, colours, lengths) remain by contract (2). -/
 theorem svg_attr_wellformed :
     (∀ v : List Char, WfAttrVal v → ∃ q body us, v = q :: (body ++ [q]) ∧ svgAttrPre body = flat us ∧
       us.all XUnit.ok = true) ∧
     (∀ us : List XUnit, us.all XUnit.ok = true →
-      WfAttrVal (svgAttrWrite (flat us)) ∧ attrValue (svgAttrWrite (flat us)) = us.map (XUnit.val true)) := by
-  constructor
-  · rintro v ⟨q, us, _, hok, _, rfl⟩
+      WfAttrVal (svgAttrWrite (flat us)) ∧ attrValue (svgAttrWrite (flat us)) = us.map (XUnit.val true)) ∧
+    (∀ (f : List Char → Option (List Char)) (us : List XUnit), us.all XUnit.ok = true →
+      AttrLit (svgStyleAttr f (flat us)) ∧
+      (subChecked f (svgAttrPre (flat us)) = svgAttrPre (flat us) → WfAttrVal (svgStyleAttr f (flat us)))) := by
+  have pre : ∀ us : List XUnit, us.all XUnit.ok = true → ∃ us2, svgAttrPre (flat us) = flat us2 ∧
+      us2.all XUnit.ok = true := by
+    intro us hok
     obtain ⟨us1, e1, ok1⟩ := scan_ws_units XmlTables.attrRev attrRev_sound us.length us (Nat.le_refl _) hok
     obtain ⟨us2, e2, ok2⟩ := trimWs_flat us1 ok1
-    refine ⟨q, flat us, us2, rfl, ?_, ok2⟩
+    refine ⟨us2, ?_, ok2⟩
     unfold svgAttrPre replWsEnt
     rw [e1, e2]
+  refine ⟨?_, ?_, ?_⟩
+  · rintro v ⟨q, us, _, hok, _, rfl⟩
+    obtain ⟨us2, e, ok2⟩ := pre us hok
+    exact ⟨q, flat us, us2, rfl, e, ok2⟩
   · intro us hok
     have := escapeAttrVal_flat us hok
     exact ⟨this.2, this.1⟩
+  · intro f us hok
+    obtain ⟨us2, e, ok2⟩ := pre us hok
+    have hplain : WfAttrVal (svgAttrWrite (svgAttrPre (flat us))) := by
+      rw [e]; exact (escapeAttrVal_flat us2 ok2).2
+    constructor
+    · unfold svgStyleAttr subChecked
+      cases hm : f (svgAttrPre (flat us)) with
+      | none => exact wfAttrVal_attrLit _ hplain
+      | some m =>
+        simp only
+        split
+        · next hok2 => exact attrLit_of_isCD m hok2
+        · exact wfAttrVal_attrLit _ hplain
+    · intro h
+      unfold svgStyleAttr
+      rw [h]; exact hplain
 
 example : svgAttrPre "  a &#60;  &quot;b&apos; &#10; ".toList = "a &lt; \"b' &#10;".toList ∧
     svgAttrWrite (svgAttrPre "  a &#60;  &quot;b&apos;\" &#10; ".toList) = "'a &lt; \"b&#39;\" &#10;'".toList := by decide
 
-/-- `EscapeAttrVal` only escapes the chosen quote: a rewritten value that is not a sequence of units (here the CSS
-sub-minifier's `a:&lt` for `a:&lt;`, K-C09-Xml-3 on the real code: `<svg style="a:&lt;"/>` → `<svg style="a:&lt"/>`)
-is written as an ill-formed literal — the contract of (2) is needed -/
-theorem svg_attr_contract_needed : wfAttr (svgAttrWrite "a:&lt".toList) = false ∧
-    wfAttr (svgAttrWrite "a<b".toList) = false := by decide
+/-- regression of K-C09-Xml-3, `style` attribute (fixed in d582c28): a sub-minifier that cuts the `;` of `a:&lt;` is
+overruled, one whose result has quotes is used and the chosen quote escaped -/
+example : svgStyleAttr dropSemi "a:&lt;".toList = "\"a:&lt;\"".toList ∧
+    svgStyleAttr dropSpaces "a : 'b \"c\" d'".toList = "\"a:'b&#34;c&#34;d'\"".toList := by decide
 
 end Verif.Proofs.C09Xml
